@@ -133,6 +133,7 @@ type Sim struct {
 	SimTime     time.Duration
 	nroot       int
 	nativeAny   bool
+	afSeq       int
 	timers      []time.Time // deadlines of timers created by instrumented library code
 }
 
@@ -307,6 +308,61 @@ func ContextWithTimeout(ctx context.Context, d time.Duration) (context.Context, 
 func ContextWithDeadline(ctx context.Context, t time.Time) (context.Context, context.CancelFunc) {
 	register(time.Until(t))
 	return context.WithDeadline(ctx, t)
+}
+
+// adopt turns the calling goroutine, started by the Go runtime for an
+// AfterFunc callback, into a simulated goroutine: it parks until scheduled.
+// The name was fixed when the callback was registered (by a token holder).
+func (s *Sim) adopt(name, site string, fn func()) {
+	if s.dead.Load() {
+		select {}
+	}
+	g := s.newG(name, site, true)
+	<-g.wake
+	if s.dead.Load() {
+		select {}
+	}
+	defer func() {
+		if r := recover(); r != nil {
+			if s.PanicMsg == "" {
+				s.PanicMsg = fmt.Sprint(r)
+				s.PanicStack = string(debug.Stack())
+				s.PanicG = g.Name
+			}
+		}
+		g.state.Store(gDone)
+	}()
+	fn()
+}
+
+func (s *Sim) afName() string {
+	s.afSeq++
+	owner := "root"
+	if s.cur != nil {
+		owner = s.cur.Name
+	}
+	return owner + ".af" + strconv.Itoa(s.afSeq)
+}
+
+// ContextAfterFunc replaces context.AfterFunc in instrumented code.
+func ContextAfterFunc(site string, ctx context.Context, f func()) func() bool {
+	s := cur.Load()
+	if s == nil || s.dead.Load() {
+		return context.AfterFunc(ctx, f)
+	}
+	name := s.afName()
+	return context.AfterFunc(ctx, func() { s.adopt(name, site, f) })
+}
+
+// TimeAfterFunc replaces time.AfterFunc in instrumented code.
+func TimeAfterFunc(site string, d time.Duration, f func()) *time.Timer {
+	s := cur.Load()
+	if s == nil || s.dead.Load() {
+		return time.AfterFunc(d, f)
+	}
+	name := s.afName()
+	register(d)
+	return time.AfterFunc(d, func() { s.adopt(name, site, f) })
 }
 
 func register(d time.Duration) {
